@@ -1059,6 +1059,7 @@ pub fn project(name: &str, trace: &[Value]) -> Vec<Value> {
         "progress" => progress(trace),
         "hostile" => hostile(trace),
         "recvlimits" => recvlimits(trace),
+        "mtu" => crate::proj_c13::mtu(trace),
         "master" => trace.to_vec(),
         o => panic!("unknown projection {o}"),
     }
